@@ -13,7 +13,7 @@ struct KFd {
 	bool ever_closed = false;
 	// listen
 	int sock_family = 0; bool listening = false; SockAddrSpec bound; bool v6only = false;
-	std::deque<int> backlog;       // client index, or -(errno) for an aborted/failed accept
+	std::deque<int> backlog; bool lasting_accept_failure = false;       // client index, or -(errno) for an aborted/failed accept
 	// stream
 	int client = -1;
 	int cfg_calls = 0, cfg_fail_at = 0, cfg_fail_errno = 0; int epoll_add_errno = 0;   // fault: registering this connection with the event loop fails once (ENOSPC: max_user_watches, ENOMEM)   // fault: the n-th configuration call (fcntl/getsockname/setsockopt) on this connection fails
